@@ -103,6 +103,8 @@ FIXED = [
     ("C10", "bed597f", "`/a/i.test('\u00df')` and `new RegExp('\\c\u00df')` raised a Python TypeError: ord() of an upper-cased character whose mapping is two characters"),
     ("C04", "69320de", "`parseInt('1\u0130', 36)` raised a Python TypeError: ord() of the lower-cased U+0130 (two code points)"),
     ("C20", "dc5d38a", "`r=/a/g; r.lastIndex=1.5; r.test('aaa')` raised a Python TypeError, a negative lastIndex indexed from the end, and a non-global regex had a stored fraction/string replaced by an integer: lastIndex went to the matcher unconverted and was written back unconditionally"),
+    ("C07", "60b29da", "`try { null.x } catch (e) { e instanceof Error }` was false (also for ReferenceError, RangeError ...): the derived error prototypes had no parent; errors had no toString"),
+    ("C07", "a3da203", "`throw new RangeError('out of range')` reached Python as JSError('Error: out of range'): the uncaught object's name was dropped"),
 ]
 
 
